@@ -331,6 +331,9 @@ where
             props: irs
                 .into_iter()
                 .map(|(prop_name, mut ir)| {
+                    // Vue never calls the default of a prop whose type is `Function` as a factory
+                    let is_function_only =
+                        ir.types.len() == 1 && ir.types.contains(&Some(atom!("Function")));
                     let mut props = vec![
                         PropOrSpread::Prop(Box::new(Prop::KeyValue(KeyValueProp {
                             key: PropName::Ident(quote_ident!("type")),
@@ -384,9 +387,21 @@ where
                                 false
                             }
                     }) {
+                        let default = match default {
+                            // a factory generated around the written expression
+                            Expr::Arrow(ArrowExpr {
+                                span, params, body, ..
+                            }) if is_function_only && *span == DUMMY_SP && params.is_empty() => {
+                                match &**body {
+                                    BlockStmtOrExpr::Expr(written) => (**written).clone(),
+                                    BlockStmtOrExpr::BlockStmt(..) => default.clone(),
+                                }
+                            }
+                            _ => default.clone(),
+                        };
                         props.push(PropOrSpread::Prop(Box::new(Prop::KeyValue(KeyValueProp {
                             key: PropName::Ident(quote_ident!("default")),
-                            value: Box::new(default.clone()),
+                            value: Box::new(default),
                         }))));
                     }
                     PropOrSpread::Prop(Box::new(Prop::KeyValue(KeyValueProp {
